@@ -20,6 +20,12 @@
   `c02_conn_history_irrelevant`), and what the client holds after each write is what a new
   connection would have delivered plus the earlier responses (`c02_conn_delivery_independent`).
 
+  Section H is the status line byte for byte (`Model/RespStatus.lean`: `ReadResponse`'s reader, `Response.Write`
+  and martian's header-only writer as two definitions): every phrase reaches the client unchanged through
+  either writer (`c02_status_line_preserved`), the one normalisation (`c02_status_line_bare_code`), and
+  the cutset-writer witness.  Section I says which connection limit bounds the relay of a response
+  (`Model/RespRelay.lean`): `WriteTimeout` alone; the read-side limits never do.
+
   Repaired in the code and therefore proved at full strength here (no exclusions):
     F22  solicited gzip + Content-Length/close: the gunzipped body is re-framed (chunked for an
          HTTP/1.1 exchange, close-delimited otherwise)      → `c02_keepalive_implies_delimited`,
@@ -43,6 +49,7 @@ import FwdVerif.Lemmas.RespFlush
 import FwdVerif.Lemmas.RespFlushConn
 import FwdVerif.Lemmas.RespHeadWF
 import FwdVerif.Lemmas.ReqConn
+import FwdVerif.Lemmas.RespStatus
 
 namespace FwdVerif
 namespace C02
@@ -715,6 +722,201 @@ theorem c02_drain_matters_for_refusals_only (m : ReqConn.Drain) (d : ReqConn.Req
     (hd : ∀ h, (d h).refused = none) (inp : Bytes) :
     ReqConn.serve m d inp = ReqConn.serve .always d inp :=
   ReqConn.serveAux_no_refusal m d hd _ inp
+
+
+/-! ## H. the status line, byte for byte (`Model/RespStatus.lean`)
+
+  The origin's status line goes through `ReadResponse` (which keeps `Status` = code, blank, phrase as
+  received) and one of two writers: `Response.Write` for a response with a body, martian's own
+  `writeHeaderOnlyResponse` for HEAD / 1xx / 204 / 304.  Both print the code from `StatusCode` and then
+  `TrimPrefix(Status, Itoa(code)+" ")`.  The library's normalisations, all of them:
+    * blanks between the version and the code are dropped (`TrimLeft(status, " ")`);
+    * a line that ends after the code — no blank, no phrase — comes out with the code repeated in
+      the phrase position (`Status` = "204" has no prefix "204 ", so all of it is printed after the code);
+    * a line with the blank and an empty phrase comes out as it came in;
+  anything else of the phrase — leading blanks or tabs, digits, the code itself repeated, `HTTP/1.1`,
+  bytes ≥ 0x80, any length — is not looked at (the phrase is an arbitrary `Bytes` below). -/
+
+/-- **The status line reaches the client unchanged**, whichever writer writes it: for every HTTP/1.x
+    version, every three-digit code 100–999 and EVERY phrase (any bytes), the origin's line
+    `HTTP/1.m SP* code SP phrase` is written as `HTTP/1.m SP code SP phrase CRLF` — the origin's own
+    bytes when it used one blank. -/
+theorem c02_status_line_preserved (st : Nat → Bytes) (ho : Bool) (k : Nat) {m s : Nat} (hm : m < 10)
+    (h1 : 100 ≤ s) (h2 : s < 1000) (reason : Bytes) :
+    StatusLine.clientLine st ho (StatusLine.originLineBlanks k m s reason) = some (statusLine m s reason) ∧
+    statusLine m s reason = StatusLine.originLine m s reason ++ crlf ∧
+    StatusLine.originLineBlanks 0 m s reason = StatusLine.originLine m s reason := by
+  refine ⟨?_, ?_, rfl⟩
+  · unfold StatusLine.clientLine
+    rw [StatusLine.read_originLineBlanks k hm h2, Option.map_some]
+    cases ho
+    · exact congrArg some (StatusLine.write_phrase st hm h1 h2 reason)
+    · exact congrArg some ((StatusLine.headerOnlyLine_eq st _).trans (StatusLine.write_phrase st hm h1 h2 reason))
+  · simp [statusLine, StatusLine.originLine, dec3]
+
+/-- non-vacuity: `HTTP/1.1 404 404 page not found` to a HEAD request, and a phrase of blanks, a tab
+    and a byte ≥ 0x80 on a response with a body -/
+example : StatusLine.clientLine (fun _ => []) true (Req.bs "HTTP/1.1 404 404 page not found") =
+      some (Req.bs "HTTP/1.1 404 404 page not found\r\n") ∧
+    StatusLine.clientLine (fun _ => []) false ([72, 84, 84, 80, 47, 49, 46, 49, 32, 50, 48, 48, 32, 32, 9, 233]) =
+      some ([72, 84, 84, 80, 47, 49, 46, 49, 32, 50, 48, 48, 32, 32, 9, 233, 13, 10]) := by
+  have a := (c02_status_line_preserved (fun _ => []) true 0 (m := 1) (s := 404) (by decide) (by decide) (by decide)
+    (Req.bs "404 page not found")).1
+  have b := (c02_status_line_preserved (fun _ => []) false 0 (m := 1) (s := 200) (by decide) (by decide) (by decide)
+    [32, 9, 233]).1
+  refine ⟨?_, b⟩
+  have e1 : Req.bs "HTTP/1.1 404 404 page not found" = StatusLine.originLineBlanks 0 1 404 (Req.bs "404 page not found") := by
+    rw [bs_eq, bs_eq]; decide
+  have e2 : Req.bs "HTTP/1.1 404 404 page not found\r\n" = statusLine 1 404 (Req.bs "404 page not found") := by
+    rw [bs_eq, bs_eq]; decide
+  rw [e1, e2]; exact a
+
+/-- the one normalisation that touches the phrase: a status line that ends after the code (no blank,
+    no phrase) is written with the code repeated in the phrase position, by both writers -/
+theorem c02_status_line_bare_code (st : Nat → Bytes) (ho : Bool) {m s : Nat} (hm : m < 10)
+    (h1 : 100 ≤ s) (h2 : s < 1000) :
+    StatusLine.clientLine st ho (StatusLine.originLineBare m s) = some (statusLine m s (dec3 s)) := by
+  unfold StatusLine.clientLine
+  rw [StatusLine.read_originLineBare hm h2, Option.map_some]
+  cases ho
+  · exact congrArg some (StatusLine.write_bare st hm h1 h2)
+  · exact congrArg some ((StatusLine.headerOnlyLine_eq st _).trans (StatusLine.write_bare st hm h1 h2))
+
+/-- the two writers print the same line for whatever was read — HEAD and GET of one resource get the
+    same status line — and for EVERY input line, regular or not -/
+theorem c02_status_line_writers_agree (st : Nat → Bytes) (line : Bytes) :
+    (∀ r : StatusLine.Read, StatusLine.headerOnlyLine st r = StatusLine.responseWriteLine st r) ∧
+    StatusLine.clientLine st true line = StatusLine.clientLine st false line := by
+  refine ⟨fun r => rfl, ?_⟩
+  unfold StatusLine.clientLine
+  cases StatusLine.readStatusLine line <;> rfl
+
+/-- the writers' `StatusText` branch is dead for a forwarded response: `Status` as read from the wire
+    is never empty, so the line does not depend on `http.StatusText` -/
+theorem c02_status_text_unused (st st' : Nat → Bytes) (ho : Bool) (line : Bytes) :
+    StatusLine.clientLine st ho line = StatusLine.clientLine st' ho line := by
+  unfold StatusLine.clientLine
+  cases h : StatusLine.readStatusLine line with
+  | none => rfl
+  | some r =>
+    have hne := StatusLine.read_status_ne_nil h
+    cases ho <;>
+      simp only [Option.map_some, StatusLine.headerOnlyLine, StatusLine.responseWriteLine, hne, Bool.false_eq_true,
+        if_false, if_true]
+
+/-- the status line of `serialize` (what sections A–E reason about) IS the line the writers produce
+    from the origin's line: `processResponse` and the byte-level model agree -/
+theorem c02_status_line_of_response {rc : ReqCtx} {o : OriginResp} {r : ClientResp} (st : Nat → Bytes)
+    (h : processResponse rc o = .ok r) (hm : o.minor < 10) (h1 : 100 ≤ o.status) (h2 : o.status < 1000) :
+    StatusLine.clientLine st (headerOnly rc.method r.status) (StatusLine.originLine o.minor o.status o.reason) =
+      some (statusLine r.minor r.status r.reason) := by
+  obtain ⟨e1, e2, e3⟩ := status_preserved h
+  rw [e1, e2, e3]
+  exact (c02_status_line_preserved st _ 0 hm h1 h2 o.reason).1
+
+/-- **Why `TrimPrefix` and not a cutset.**  With `strings.TrimLeft(text, code+" ")` in the header-only
+    writer the phrase loses every leading byte that is a blank or a digit of the code:
+    `404 404 page not found` → `404 page not found`, `204 2 rows deleted` → `204 rows deleted`, while
+    `Response.Write` forwards both unchanged — so the two writers disagree and the phrase is altered. -/
+theorem c02_status_line_cutset_witness :
+    (∀ r, StatusLine.readStatusLine (Req.bs "HTTP/1.1 404 404 page not found") = some r →
+      StatusLine.headerOnlyLineTrimLeft (fun _ => []) r = Req.bs "HTTP/1.1 404 page not found\r\n" ∧
+      StatusLine.responseWriteLine (fun _ => []) r = Req.bs "HTTP/1.1 404 404 page not found\r\n") ∧
+    (∀ r, StatusLine.readStatusLine (Req.bs "HTTP/1.1 204 2 rows deleted") = some r →
+      StatusLine.headerOnlyLineTrimLeft (fun _ => []) r = Req.bs "HTTP/1.1 204 rows deleted\r\n" ∧
+      StatusLine.headerOnlyLine (fun _ => []) r = Req.bs "HTTP/1.1 204 2 rows deleted\r\n") := by
+  have r1 : StatusLine.readStatusLine (Req.bs "HTTP/1.1 404 404 page not found") =
+      some { major := 1, minor := 1, code := 404, status := Req.bs "404 404 page not found" } := by
+    rw [bs_eq, bs_eq]; decide +kernel
+  have r2 : StatusLine.readStatusLine (Req.bs "HTTP/1.1 204 2 rows deleted") =
+      some { major := 1, minor := 1, code := 204, status := Req.bs "204 2 rows deleted" } := by
+    rw [bs_eq, bs_eq]; decide +kernel
+  have i1 : StatusLine.itoa 1 = [49] := StatusLine.itoa_lt10 (by decide)
+  have i404 : StatusLine.itoa 404 = [52, 48, 52] := StatusLine.itoa_three (by decide) (by decide)
+  have i204 : StatusLine.itoa 204 = [50, 48, 52] := StatusLine.itoa_three (by decide) (by decide)
+  refine ⟨fun r hr => ?_, fun r hr => ?_⟩
+  · rw [r1] at hr; cases hr
+    simp only [StatusLine.headerOnlyLineTrimLeft, StatusLine.responseWriteLine, StatusLine.formatLine, StatusLine.pad3,
+      i1, i404, bs_eq]
+    decide +kernel
+  · rw [r2] at hr; cases hr
+    simp only [StatusLine.headerOnlyLineTrimLeft, StatusLine.headerOnlyLine, StatusLine.formatLine, StatusLine.pad3,
+      i1, i204, bs_eq]
+    decide +kernel
+
+/-- the whole family: on a regular origin line the cutset writer is right exactly when the phrase is
+    empty or starts with a byte that is neither a blank nor a digit of the status code — every other
+    phrase is altered (the digit- and blank-initial phrases of the run's grammar, on every HEAD/204/304) -/
+theorem c02_status_line_cutset_alters_iff (st : Nat → Bytes) {m s : Nat} (hm : m < 10) (h1 : 100 ≤ s) (h2 : s < 1000)
+    (reason : Bytes) :
+    StatusLine.headerOnlyLineTrimLeft st { major := 1, minor := m, code := s, status := dec3 s ++ 32 :: reason } =
+        statusLine m s reason ↔
+      (match reason with | [] => True | c :: _ => (dec3 s ++ [32]).contains c = false) :=
+  StatusLine.cutset_line_iff st hm h1 h2 reason
+
+/-! ## I. which limits bound the relay of a response (`Model/RespRelay.lean`)
+
+  `WriteTimeout` is the only limit `proxyConn.write` arms.  With `WriteTimeout` = 0 a response is relayed
+  for as long as the origin takes, whatever `ReadTimeout`, `ReadHeaderTimeout` and `IdleTimeout` are.
+  (What a set `WriteTimeout` does to a slow body is finding F45 of C15 and is described, not judged, here.) -/
+
+/-- **No write timeout ⇒ the whole response reaches a client that reads**, however slowly the origin
+    delivers it and whatever the three read-side limits are -/
+theorem c02_relay_complete_without_write_timeout (L : Relay.Limits) (h : L.write = 0) (ws : List (Nat × Bytes)) :
+    Relay.relayWriteDeadline L = none ∧
+    Relay.relay (Relay.relayWriteDeadline L) ws = ws.map (·.2) ∧
+    Relay.complete (Relay.relayWriteDeadline L) ws = true := by
+  have e : Relay.relayWriteDeadline L = none := by simp [Relay.relayWriteDeadline, h]
+  rw [e]
+  exact ⟨rfl, Relay.relay_none ws, Relay.complete_none ws⟩
+
+/-- `ReadTimeout`, `ReadHeaderTimeout` and `IdleTimeout` never bound the relay of a response: the
+    deadline, and with it what the client receives, is a function of `WriteTimeout` alone -/
+theorem c02_relay_ignores_read_limits (r rh i r' rh' i' w : Nat) (ws : List (Nat × Bytes)) :
+    Relay.relayWriteDeadline ⟨r, rh, i, w⟩ = Relay.relayWriteDeadline ⟨r', rh', i', w⟩ ∧
+    Relay.relay (Relay.relayWriteDeadline ⟨r, rh, i, w⟩) ws = Relay.relay (Relay.relayWriteDeadline ⟨r', rh', i', w⟩) ws :=
+  ⟨rfl, rfl⟩
+
+example : Relay.relayWriteDeadline ⟨300, 400, 500, 0⟩ = none ∧ Relay.relayWriteDeadline ⟨0, 0, 0, 350⟩ = some 350 ∧
+    Relay.idleLimit ⟨300, 0, 0, 0⟩ = 300 ∧ Relay.headerLimit ⟨300, 0, 0, 0⟩ = 300 := by decide
+
+/-- with `WriteTimeout` set the response is complete exactly when every socket write happens before
+    the one deadline (F45, C15's subject: stated for reference, C02's run does not judge these) -/
+theorem c02_relay_write_timeout_bound (L : Relay.Limits) (h : L.write > 0) (ws : List (Nat × Bytes)) :
+    Relay.complete (Relay.relayWriteDeadline L) ws = true ↔ ∀ w ∈ ws, w.1 < L.write := by
+  have e : Relay.relayWriteDeadline L = some L.write := by simp [Relay.relayWriteDeadline, h]
+  rw [e]
+  simp [Relay.complete, Relay.writeOK]
+
+/-- what the client has is the whole response exactly when `complete` says so -/
+theorem c02_relay_complete_iff (dl : Option Nat) (ws : List (Nat × Bytes)) :
+    Relay.complete dl ws = true ↔ Relay.relay dl ws = ws.map (·.2) := by
+  constructor
+  · exact Relay.relay_of_complete
+  · intro h
+    exact Relay.complete_of_relay (by rw [h, List.length_map])
+
+/-- an accessor that falls back to `ReadTimeout` (the shape of `idleTimeout()` / `readHeaderTimeout()`)
+    agrees with the code exactly on the configurations with `WriteTimeout` set or `ReadTimeout` unset … -/
+theorem c02_relay_fallback_differs_iff (L : Relay.Limits) :
+    Relay.relayWriteDeadlineFallback L = Relay.relayWriteDeadline L ↔ (L.write > 0 ∨ L.read = 0) := by
+  unfold Relay.relayWriteDeadlineFallback Relay.relayWriteDeadline
+  by_cases hw : L.write > 0
+  · simp [hw]
+  · by_cases hr : L.read > 0
+    · simp [hw, hr]; omega
+    · simp [hw, hr]; omega
+
+/-- … and on the others it cuts a healthy client off: `ReadTimeout` 300 ms, no `WriteTimeout`, a body
+    that arrives 400 ms and 800 ms after the head — the code relays all three writes, the fallback
+    accessor only the head -/
+theorem c02_relay_fallback_witness :
+    let L : Relay.Limits := ⟨300, 0, 0, 0⟩
+    let ws : List (Nat × Bytes) := [(0, [72]), (400, [98]), (800, [99])]
+    Relay.relay (Relay.relayWriteDeadline L) ws = [[72], [98], [99]] ∧
+    Relay.relay (Relay.relayWriteDeadlineFallback L) ws = [[72]] ∧
+    Relay.complete (Relay.relayWriteDeadlineFallback L) ws = false := by
+  decide
 
 
 end C02
